@@ -234,6 +234,9 @@ def classify(task, trace, clauses):
         if in_dry_exec.get(min(l, len(ev)), False) and (c in RUN_CLAUSES_AS_C14 or c.startswith("inv_")):
             p = "C14"
         out.setdefault(p, []).append(c if l == first_l else c + "(secondary)")
+        if c == "end_output_value" and task["scn"].get("norm") and l == first_l:
+            # with a normalising store the wrong output is the in-memory result instead of what read returned: C09's last clause
+            out.setdefault("C09", []).append(c)
     return out
 
 
